@@ -40,9 +40,7 @@ const (
 	PhTrim // TrimTo(N)
 	// PhTrimLive: TrimTo(N) with no Reset after it. Slices in buffers that
 	// survive the call stay valid and the phases that follow must not overlap
-	// or overwrite them. (If the call released the very buffer allocations were
-	// going to, the history has left the allocator's contract and is cut short
-	// with a Reset.)
+	// or overwrite them; slices in released buffers are forgotten.
 	PhTrimLive
 )
 
@@ -144,7 +142,7 @@ type allocRun struct {
 	sim               *core.Sim
 	dec               *core.Decider
 	live              []handed // since the last Reset
-	trimLive, trimLiveReleased int // TrimTo without Reset: performed / released at least one buffer
+	trimLive, trimLiveReleased, trimLiveCurrent int // TrimTo without Reset: performed / released at least one buffer / released the buffer in use
 	viol              []Violation
 	nseq              int
 	inSlow            [16]bool
@@ -379,10 +377,9 @@ func runAlloc(plan *AllocPlan, dec *core.Decider) *RunResult {
 			t.a.TrimTo(ph.N)
 			b1, l1, _ := z.VerifAllocChunks(t.a)
 			if cur >= len(l1) || l1[cur] == 0 {
-				// the buffer in use was released: out of contract, start over
-				t.a.Reset()
-				t.live = t.live[:0]
-				break
+				// the buffer allocations were going to has been released as well;
+				// the allocator must still serve the requests that follow
+				t.trimLiveCurrent++
 			}
 			released := 0
 			kept := t.live[:0]
@@ -434,6 +431,6 @@ func runAlloc(plan *AllocPlan, dec *core.Decider) *RunResult {
 	res.Tape = dec.Tape
 	res.Decisions = len(dec.Tape)
 	res.Diverged = dec.Diverged
-	res.Extra = map[string]int{"slow_paths": t.slowPaths, "tasks_together_in_slow_path": t.overshootTogether, "trimto_without_reset": t.trimLive, "trimto_without_reset_released_buffers": t.trimLiveReleased}
+	res.Extra = map[string]int{"slow_paths": t.slowPaths, "tasks_together_in_slow_path": t.overshootTogether, "trimto_without_reset": t.trimLive, "trimto_without_reset_released_buffers": t.trimLiveReleased, "trimto_without_reset_released_buffer_in_use": t.trimLiveCurrent}
 	return res
 }
